@@ -38,14 +38,14 @@ type Cfg struct {
 
 // custom: the constraints a custom schema puts on top of the struct tags ("any subset of fields indexed / unique").
 //
-//	1: A unique   2: U not indexed   3: V indexed   4: F unique, E not indexed   5: V unique, Z not indexed
+//	1: A unique (Unique alone, Index not set)   2: U not indexed   3: V indexed   4: F unique, E not indexed   5: V unique, Z not indexed
 //	7: R (an optional string, *string) UPPER: the only way to put a case constraint on a pointer field
 //	6: Z unique and LOWER (a normalisation the struct tag does not have: the trace header then carries the
 //	   canonicalisation table of Z, see header())
 func custom(k int) map[string]sod.Constraints {
 	switch k {
 	case 1:
-		return map[string]sod.Constraints{"A": {Index: true, Unique: true}}
+		return map[string]sod.Constraints{"A": {Unique: true}} // (unique WITHOUT index: Constraint replaces the constraints wholesale)
 	case 2:
 		return map[string]sod.Constraints{"U": {}}
 	case 3:
@@ -110,21 +110,22 @@ type Op struct {
 }
 
 type Test struct {
-	ID       string   `json:"id"`
-	Cfg      Cfg      `json:"cfg"`
-	Ops      []Op     `json:"ops"`
-	Fields   []string `json:"fields,omitempty"`    // fields the sweep queries (default: those set in ops)
-	NoObs    bool     `json:"noobs,omitempty"`     // no automatic final sweep
-	VClock   bool     `json:"vclock,omitempty"`    // drive the background flusher with the virtual clock
-	Threads  [][]Op   `json:"threads,omitempty"`   // concurrent part: one list of calls per goroutine
-	Reopen   bool     `json:"reopen,omitempty"`    // close and reopen before the concurrent part (race on the first access)
-	Perturb  bool     `json:"perturb,omitempty"`   // schedule perturbation at file-system call sites
-	Yield    bool     `json:"yield,omitempty"`     // yield between the calls of a goroutine
-	NoRecord bool     `json:"norecord,omitempty"`  // race-detector runs: no recording, no synchronisation of the driver's own
-	Adopt    string   `json:"adopt,omitempty"`     // continue on a copy of a golden directory (written by the pinned release)
-	CrashAll bool     `json:"crash_all,omitempty"` // enumerate the crash points of every mutating call
-	Aux      bool     `json:"aux,omitempty"`       // a second collection lives in the same database (aux.go)
-	OwnIDs   bool     `json:"ownids,omitempty"`    // new objects of even slots get an identifier chosen by the caller (upper-case hex) before they are stored
+	ID         string   `json:"id"`
+	Cfg        Cfg      `json:"cfg"`
+	Ops        []Op     `json:"ops"`
+	Fields     []string `json:"fields,omitempty"`     // fields the sweep queries (default: those set in ops)
+	NoObs      bool     `json:"noobs,omitempty"`      // no automatic final sweep
+	VClock     bool     `json:"vclock,omitempty"`     // drive the background flusher with the virtual clock
+	Threads    [][]Op   `json:"threads,omitempty"`    // concurrent part: one list of calls per goroutine
+	Reopen     bool     `json:"reopen,omitempty"`     // close and reopen before the concurrent part (race on the first access)
+	Perturb    bool     `json:"perturb,omitempty"`    // schedule perturbation at file-system call sites
+	Yield      bool     `json:"yield,omitempty"`      // yield between the calls of a goroutine
+	NoRecord   bool     `json:"norecord,omitempty"`   // race-detector runs: no recording, no synchronisation of the driver's own
+	Adopt      string   `json:"adopt,omitempty"`      // continue on a copy of a golden directory (written by the pinned release)
+	CrashAll   bool     `json:"crash_all,omitempty"`  // enumerate the crash points of every mutating call
+	Aux        bool     `json:"aux,omitempty"`        // a second collection lives in the same database (aux.go)
+	FinalCheck bool     `json:"finalcheck,omitempty"` // concurrent histories judged by their final state (Drop + Create among the calls)
+	OwnIDs     bool     `json:"ownids,omitempty"`     // new objects of even slots get an identifier chosen by the caller (upper-case hex) before they are stored
 }
 
 // ---------------------------------------------------------------- error classes
@@ -709,6 +710,10 @@ func (r *Runner) step(op *Op) {
 		r.flushOne(op)
 	case "drop":
 		r.dropOp(op)
+	case "repair":
+		// Repair on the live handle: with an index in order it changes nothing (sweeps and flushes that follow are the oracle)
+		c := classify(r.db.Repair(r.proto()))
+		r.emit(ev{"ev": "repair", "c": c})
 	case "xput":
 		r.xput(op)
 	case "xdel":
